@@ -76,7 +76,8 @@ class C18(Prop):
         "roll_fuel_exhausted_only_by_rejected_run", "dpSelectLast_via_rolls", "exists_accepting_rolls", "dpRetry_every_pass_can_accept",
         "shuffleWindow_via_rolls", "xShuffleWindows_window_bijective_on_rolls", "cShuffleWindows_pair_always_swapped",
         "shuffleKmers_via_rolls", "cShuffle_counts",
-        "fisherYates_via_rolls", "fisherYates_bijective_on_rolls", "vecShuffle64_via_rolls", "rsqSample_uniform", "iidUniform_exact", "bootstrap_exact")]
+        "fisherYates_via_rolls", "fisherYates_bijective_on_rolls", "vecShuffle64_via_rolls", "rsqSample_uniform", "iidUniform_exact", "bootstrap_exact",
+        "roll_on_generator_words", "roll_returns_spec", "roll_progress", "roll_reaches_every_value", "dpRetry_accepting_words_exist", "dpPass_on_words_via_rolls")]
     claimed = True
     technique = ("Lean 4 proof (Fisher-Yates/swap-loop invariants, permutation and support theorems for every generator state) + "
                  "exact differential correspondence of the executable model (on the C09 generator model) with the ASan/UBSan-built C code + python property monitors on the C output")
@@ -136,6 +137,8 @@ class C18(Prop):
         return {"EaselModel/Shuffle/WinParams.lean": self.WINPARAMS % (c[0], c[1], x[0], x[1])}
 
     # ------------------------------------------------------------------ generators
+    FPLAWS_OPS = ("cmarkov0", "cmarkov1", "xmarkov0", "xmarkov1", "iid", "fiid", "xiid", "xfiid")
+
     def rand_len(self, rng, big=False):
         r = rng.random()
         if r < 0.30: return rng.choice([0, 1, 2, 3, 4, 5, 6, 7, 8])
@@ -271,7 +274,8 @@ class C18(Prop):
             return "%s dig=%d abc=%s rows=%s ip=%d" % (which, dig, abc, ",".join(hx(r) for r in rows), ip if which == "msashuffle" else 0)
         if which == "vshuffle":
             rows = self.rand_msa(rng, 1, K, K)
-            return "vshuffle abc=%s rows=%s ip=%d" % (abc, ",".join(hx(r) for r in rows), ip)
+            extra = (" fresh=1" if rng.random() < 0.15 else "") + (" mk=1" if rng.random() < 0.3 else "")
+            return "vshuffle abc=%s rows=%s%s ip=%d" % (abc, ",".join(hx(r) for r in rows), extra, ip)
         if which == "permute":
             dig = rng.randrange(2)
             rows = self.rand_msa(rng, dig, K, K)
@@ -281,24 +285,31 @@ class C18(Prop):
                      "names=" + ",".join(tok(i, "n") for i in range(n)),
                      "wgt=" + ",".join(str(rng.randrange(1, 1000)) for _ in range(n)),
                      "sqlen=" + ",".join(str(rng.randrange(1, 100000)) for _ in range(n))]
+            allopt = rng.random()      # every optional per-sequence field present (10%) / all absent (10%) / independent coin flips
             for k in ("acc", "desc", "ss", "sa", "pp", "gs", "gr"):
-                parts.append(k + "=" + (",".join(tok(i, k) for i in range(n)) if rng.random() < 0.5 else "none"))
-            if rng.random() < 0.5:
+                present = allopt < 0.1 or (allopt >= 0.2 and rng.random() < 0.5)
+                sparse = k in ("ss", "sa", "pp") and rng.random() < 0.4       # parsed per-sequence markup given for some sequences only
+                parts.append(k + "=" + (",".join("~" if sparse and rng.random() < 0.4 else tok(i, k) for i in range(n)) if present else "none"))
+            if allopt < 0.1 or (allopt >= 0.2 and rng.random() < 0.5):
                 parts.append("gs2=" + ",".join(tok(i, "g2") if rng.random() < 0.6 else "~" for i in range(n)))
+            if allopt < 0.1 or (allopt >= 0.2 and rng.random() < 0.5):
+                parts.append("gr2=" + ",".join(tok(i, "r2") if rng.random() < 0.6 else "~" for i in range(n)))
+            if rng.random() < 0.15: parts.append("idx=0")
             return " ".join(parts)
         # qrna
         L = rng.choice([0, 1, 2, 3, rng.randrange(0, 30), rng.randrange(0, 300)])
         gf = rng.choice([0.0, 0.2, 0.5, 0.9])
         if which == "cqrna":
-            mk = lambda: bytes(rng.choice(GAPS_TEXT) if rng.random() < gf else rng.choice(b"ACGUacguTNXRY*~") for _ in range(L))
+            pool = b"ACGUacguTNXRY*~" if rng.random() < 0.7 else bytes(range(1, 128))     # sometimes any 7-bit character (only - _ . are gaps)
+            mk = lambda: bytes(rng.choice(GAPS_TEXT) if rng.random() < gf else rng.choice(pool) for _ in range(L))
             x, y = mk(), mk()
             if rng.random() < 0.05: y = y + b"A"
-            return "cqrna abc=%s x=%s y=%s ip=%d" % (abc, hx(x), hx(y), ip)
+            return "cqrna abc=%s x=%s y=%s ip=%d" % (abc, hx(x), hx(y), rng.choice([ip, ip, 2, 3]))
         Kp = 18 if K == 4 else 29
         mk = lambda: bytes(K if rng.random() < gf else rng.choice([rng.randrange(K), rng.randrange(K + 1, Kp)]) for _ in range(L))
         x, y = mk(), mk()
         if rng.random() < 0.05: y = y + b"\x00"
-        return "xqrna abc=%s x=%s y=%s ip=%d" % (abc, hx(x), hx(y), ip)
+        return "xqrna abc=%s x=%s y=%s ip=%d" % (abc, hx(x), hx(y), rng.choice([ip, ip, 2, 3]))
 
     def poke_for(self, rng, op):
         """a `poke` line placing the generator's next output on a boundary relevant to the first draw of `op`"""
@@ -340,6 +351,13 @@ class C18(Prop):
                                                                 "xwindows s=%s w=2 ip=0" % hx(range(10)), "xwindows s=%s w=3 ip=1" % hx(range(10))] for sd in (1, 2, 3, 7, 99)], []) + ["peek"]},
             {"name": "roll64-rejection-boundary", "ops": ["seed64 s=11"] + sum([["poke64 raw=%d" % untemper64(v), "ishuffle64 v=1,2,3,4,5,6,7"] for v in
                                                           (7 * (M64 // 7), 7 * (M64 // 7) - 1, M64, 0, 6 * (M64 // 7) - 1, 6 * (M64 // 7))], []) + ["lshuffle64 v=-", "dshuffle64 v=5", "fshuffle64 v=1,2", "peek64"]},
+            {"name": "fplaws-binary64-facts", "ops": ["seed s=17",
+                "fplaws of=xiid p=%s L=6" % ",".join(dbits(x) for x in (0.0, 5e-324, 1.0, 0.0)), "xiid p=%s L=6" % ",".join(dbits(x) for x in (0.0, 5e-324, 1.0, 0.0)),
+                "fplaws of=fiid abc=%s p=%s L=4" % (hx(b"abc"), ",".join(fbits(x) for x in (0.0, 1.0, 0.0))), "fiid abc=%s p=%s L=4" % (hx(b"abc"), ",".join(fbits(x) for x in (0.0, 1.0, 0.0))),
+                "fplaws of=cmarkov1 s=%s ip=0" % hx(b"AAAAAAAAAB"), "cmarkov1 s=%s ip=0" % hx(b"AAAAAAAAAB"),
+                "fplaws of=xmarkov1 s=%s K=5 ip=0" % hx([0, 1, 2, 3, 4, 4, 4]), "xmarkov1 s=%s K=5 ip=0" % hx([0, 1, 2, 3, 4, 4, 4]),
+                "fplaws of=cmarkov0 s=%s ip=0" % hx(b"ZZZYZ"), "cmarkov0 s=%s ip=0" % hx(b"ZZZYZ"),
+                "fplaws of=xmarkov0 s=- K=4 ip=0", "fplaws of=cmarkov0 s=%s ip=0" % hx(b"A1"), "fplaws of=xmarkov1 s=0001 K=4 ip=0", "fplaws of=xiid p=none K=4 L=3", "peek"]},
             {"name": "same-seed-inplace", "ops": ["seed s=99", "cshuffle s=%s ip=0" % hx(b"ACGTACGTAC"), "seed s=99", "cshuffle s=%s ip=1" % hx(b"ACGTACGTAC"), "peek"]},
         ]
         return [dict(x, sticky=1) for x in c]
@@ -359,6 +377,7 @@ class C18(Prop):
             if t < 0.12:
                 # determinism / in-place pair: same seed, same call, ip=0 then ip=1
                 o = self.seq_op(rng, big) if rng.random() < 0.7 else self.msa_op(rng)
+                o = o.replace(" fresh=1", "")          # a fresh <shuf> keeps its 0x77 in gap cells: not comparable with the in-place result
                 base = o.rsplit(" ip=", 1)[0] if " ip=" in o else o
                 if o.startswith(("bootstrap", "permute")):
                     ops += [o, ops[0], o]
@@ -376,6 +395,8 @@ class C18(Prop):
                     else: o = self.msa_op(rng)
                     if rng.random() < 0.06: o = self.misc_op(rng)
                     if not fast and rng.random() < 0.12: ops.append(self.poke_for(rng, o))
+                    if o.split()[0] in self.FPLAWS_OPS and rng.random() < 0.4:
+                        ops.append("fplaws of=" + o)       # binary64 law instances on the values the next op is about to encounter
                     ops.append(o)
                 if rng.random() < 0.06:      # 64-bit generator and the Shuffle64 family
                     ops.append("seed64 s=%d" % rng.choice([1, 2, 42, 2**63, 2**64 - 1, rng.randrange(1, 1 << 64)]))
@@ -506,6 +527,11 @@ class C18(Prop):
             if not l.startswith("ok "): return "returned %s" % l
             o = [] if l[3:] == "-" else [int(x) for x in l[3:].split(",")]
             return None if sorted(v) == sorted(o) else "not a permutation"
+        if w == "fplaws":
+            if l == "einval": return None
+            if not l.startswith("ok checked="): return "returned %s" % l
+            b = kv(l)
+            return None if b.get("bad") == "0" else "binary64 does not satisfy a law instance the Markov/IID support theorems rely on: %s" % l
         if w == "sample":
             fl, L = int(a["flag"]), int(a["L"])
             if not 1 <= fl <= 12: return None if l == "einval" else "invalid class flag must give einval, got %s" % l
@@ -584,7 +610,11 @@ class C18(Prop):
             rows = [unhx(x) for x in a["rows"].split(",")]; alen = len(rows[0])
             orows = [unhx(x) for x in l[3:].split(",")]
             if len(orows) != len(rows): return "row count changed"
-            if dig:
+            fresh = w == "vshuffle" and a.get("fresh") == "1" and a.get("ip") == "0"
+            if dig and fresh:      # <shuf> was created with 0x77 everywhere: VShuffle writes the non-gap cells only
+                if any(len(r) != alen + 2 or r[0] != 0x77 or r[-1] != 0x77 for r in orows): return "row length changed / sentinel cells of a fresh <shuf> written"
+                orows = [r[1:-1] for r in orows]
+            elif dig:
                 if any(len(r) != alen + 2 or r[0] != 255 or r[-1] != 255 for r in orows): return "row length/sentinels damaged"
                 orows = [r[1:-1] for r in orows]
             if any(len(r) != alen for r in orows): return "row length changed"
@@ -596,6 +626,11 @@ class C18(Prop):
                 sc = set(cols); bad = [c for c in ocols if c not in sc]
                 return "output column %r is not an input column" % (bad[0],) if bad else None
             gap = 4 if a.get("abc", "dna") == "dna" else 20
+            if fresh:
+                for c in range(alen):
+                    if sorted(x for x in cols[c] if x != gap) != sorted(o for x, o in zip(cols[c], ocols[c]) if x != gap): return "column %d: residues are not the input column's residues" % c
+                    if any(o != 0x77 for x, o in zip(cols[c], ocols[c]) if x == gap): return "column %d: a gap cell of <shuf> was written" % c
+                return None
             for c in range(alen):
                 if sorted(cols[c]) != sorted(ocols[c]): return "column %d multiset changed" % c
                 if [x == gap for x in cols[c]] != [x == gap for x in ocols[c]]: return "gap positions of column %d changed" % c
@@ -610,6 +645,7 @@ class C18(Prop):
             for k, b in (("ss", 1000), ("sa", 2000), ("pp", 3000)):
                 if a.get(k, "none") != "none": arrs.append([str(b + i) for i in range(n)])
             if a.get("gs2", "none") != "none" and any(t != "~" for t in a["gs2"].split(",")): arrs.append(a["gs2"].split(","))
+            if a.get("gr2", "none") != "none" and any(t != "~" for t in a["gr2"].split(",")): arrs.append(a["gr2"].split(","))
             recs = ["/".join(t) for t in zip(*arrs)]
             orecs = body.split(";")
             return None if Counter(recs) == Counter(orecs) else "rows were not kept together with their annotation"
